@@ -201,7 +201,7 @@ def check(case):
         with config_inject.chunk_sizes(confidence=case.get("conf_chunk")):
             guarded(mokapot.assign_confidence, [ds], max_workers=1, scores=[np.array(scores, dtype=float)], descs=[True],
                     eval_fdr=0.05, dest_dir=out, prefixes=[None], decoys=True, proteins=prot, peps_algorithm="verif_stub",
-                    allowed=[(ValueError, "Fewer than")], sig="assign_confidence")
+                    sig="assign_confidence")  # every observed peptide is in the database: 'could not be mapped' errors are violations
         tf, dfp = out / "targets.proteins", out / "decoys.proteins"
         require(tf.exists() and dfp.exists(), "protein-files", f"{sorted(p.name for p in out.iterdir())}")
         got_t = pd.read_csv(tf, sep="\t", float_precision="round_trip")
